@@ -420,11 +420,24 @@ pub fn abs_variant(prog: &J, kind: &str, r: &mut Rng) -> Option<J> {
             }
             let (_ri, cp) = cands[r.below(cands.len())].clone();
             let c = p.pointer(&cp)?.clone();
+            // the parameter's name: a fresh one, or - half of the time - the name of a file-level
+            // variable the clause does not mention (the parameter hides it inside the rule)
+            let mut pname = "zp".to_string();
+            if r.chance(1, 2) {
+                let text = c.to_string();
+                let free: Vec<String> = p["lets"].as_array().map(|a| a.as_slice()).unwrap_or(&[]).iter()
+                    .filter_map(|l| l["n"].as_str().map(|s| s.to_string()))
+                    .filter(|n| !text.contains(&format!("\"n\":\"{}\"", n)))
+                    .collect();
+                if !free.is_empty() {
+                    pname = free[r.below(free.len())].clone();
+                }
+            }
             let mut body = c.clone();
-            body["q"] = json!([{"p":"var","n":"zp"}]);
+            body["q"] = json!([{"p":"var","n":pname}]);
             let arg = json!({"r":"q","q":c["q"],"all":true});
             *p.pointer_mut(&cp)? = json!({"c":"pcall","n":"zf","a":[arg],"neg":false});
-            p["prules"].as_array_mut()?.push(json!({"n":"zf","ps":["zp"],"lets":[],"b":[[body]]}));
+            p["prules"].as_array_mut()?.push(json!({"n":"zf","ps":[pname],"lets":[],"b":[[body]]}));
         }
         _ => return None,
     }
